@@ -422,6 +422,25 @@ Proof.
   apply forallb_forall. intros i Hi. apply in_seq in Hi. apply H. lia.
 Qed.
 
+(* reuse of one operator object: the k-th application is decided by the k-th density alone,
+   whatever was accepted or refused before (good -> bad raises, bad -> good is accepted) *)
+Theorem X_reuse_history_independent n data densities k :
+  (k < List.length densities)%nat ->
+  nth k (X_reuse_ok n data densities) Accept = X_apply_ok n data (nth k densities []).
+Proof.
+  intros H. unfold X_reuse_ok.
+  rewrite (nth_indep _ Accept (X_apply_ok n data []));
+    [apply map_nth | rewrite map_length; exact H].
+Qed.
+Theorem reject_not_conserving_after_reuse n data before dens after i :
+  List.length dens = n -> (i < n)%nat -> close0 (rowdot data n dens i) = false ->
+  nth (List.length before) (X_reuse_ok n data (before ++ dens :: after)) Accept = Reject RuntimeError.
+Proof.
+  intros Hl Hi H. rewrite X_reuse_history_independent.
+  - rewrite nth_middle. apply (reject_not_conserving n data dens i Hl Hi H).
+  - rewrite app_length. simpl. lia.
+Qed.
+
 (* ------------------------------------------------------------------ 11. diffusion *)
 Theorem reject_D_vector t n k : D_shape_ok t [n] k = Reject ValueError.
 Proof. reflexivity. Qed.
